@@ -7,7 +7,7 @@
    Assumption of the model (stated in the harness module): one row append is atomic. *)
 From Coq Require Import Permutation.
 From Pan Require Import Base.Common Model.Aggregator Proofs.AggBase Proofs.AggInv Proofs.AggSess Proofs.AggFinal
-  Proofs.AggProgress Proofs.AggOracle Proofs.AggC16.
+  Proofs.AggProgress Proofs.AggOracle Proofs.AggC16 Proofs.AggProg.
 
 Section C16.
 Variables (h : Z) (R0 : list row) (cs : list call).
@@ -68,6 +68,16 @@ Theorem C16_oracles : forall s, areach (ready h R0 cs) s ->
   /\ (all_done s -> finalb h R0 (submitted cs) (out s) = true).
 Proof. exact (c16_oracles h R0 cs R0_ok cs_idle). Qed.
 End C16.
+
+(* the program counters are derived from the instruction lists that T1 re-extracts from the source
+   (GenEq_AggOps: gen_prog_* = prog_*): file operations in program order with the locks around them, and
+   the file effect of each step is the effect of the instruction at its counter *)
+Theorem C16_counters_from_instructions :
+  flat prog_evaluate = flat_map at_pc [Start; HoldE; ReadE true; ReadE false; ClaimedE; Evaluating; WantF; HoldF; WroteF; Done false]
+  /\ flat prog_stat = flat_map at_pc [RStart; RHold; RRead []; RDone []]
+  /\ forall xE xF b o others t b' o' t', lstep xE xF b o others t = Some (b', o', t') ->
+       (b', o') = match pc_instr (cp t) with Some i => instr_effect i t b o | None => (b, o) end.
+Proof. exact (conj evaluate_pcs_from_program (conj stat_pcs_from_program lstep_effect)). Qed.
 
 (* the executable scheduler used for the correspondence only takes steps of the relation *)
 Theorem C16_scheduler_sound : forall ms e, exec_event ms e = ms \/ mstep ms (exec_event ms e).
